@@ -10,9 +10,10 @@ is searched for violations by the multi-path differential of that file.
 Recorded defects (see known_findings.json):
 * F5  – `module_id` is not injective (`/a-b.html` vs `/a_b.html`): `registry_injective` is OPEN,
         `registry_injective_partial` + `module_id_not_injective_counterexample` are proved.
-* F-C08-1, F-C08-2 – the *order* of a declaration block is observable in two ways: which `NameError` a strict template with
-        two missing names raises (`declaration_order_exception_counterexample`), and the key order of the context
-        a top-level def receives (`locals_snapshot_keys_counterexample`).
+Repaired (8e8e5a7, f319ac2; were F-C08-1/2/3): the generator used to print its sets in iteration order, which was
+observable in which `NameError` a strict template with two missing names raises and in the key order of the context a
+top-level def receives (`…_unsorted_counterexample` below document the old behaviour).  It now prints `sorted(set)`:
+`declaration_order_deterministic`, `locals_snapshot_deterministic`.
 -/
 namespace MakoModel.C08
 open MakoModel.Paths8
@@ -25,20 +26,7 @@ theorem decl_block_of_set_order (c : GenCfg) (i : Idents) (order order' : List N
     (hp : order.Perm order') (hn : order.Nodup) :
     (declBlock c i order).Perm (declBlock c i order') ∧
     (declBlock c i order).map Decl.target = order ∧ ((declBlock c i order).map Decl.target).Nodup := by
-  have ht : ∀ o : List Name, (declBlock c i o).map Decl.target = o := by
-    intro o
-    induction o with
-    | nil => rfl
-    | cons x r ih =>
-      have hx : (declOf c i x).target = x := by
-        unfold declOf
-        split
-        · rfl
-        · split
-          · rfl
-          · split <;> split <;> rfl
-      simp only [declBlock, List.map_cons] at ih ⊢
-      rw [ih, hx]
+  have ht := declBlock_targets c i
   exact ⟨hp.map _, ht order, by rw [ht order]; exact hn⟩
 
 example : (declBlock ⟨true, false, false⟩ ⟨["x".toList, "f".toList], [], [], [], ["f".toList], []⟩
@@ -165,20 +153,36 @@ theorem declaration_order_exception_unique (s : Src) (g : Bool) (env : Env) (ds 
 example : execDecls ⟨[("x".toList, .data "1".toList)], [], [], false⟩ [.ctxStrict "x".toList, .ctxStrict "y".toList] [] false
     = .error (.nameError "y".toList) := by decide
 
-/- OPEN (F-C08-2): "the outcome of a render callable, including the exception it raises, does not depend on the
-   declaration order":
-     ∀ s g env ds ds', ds.Perm ds' → (ds.map Decl.target).Nodup → execDecls s ds env g = execDecls s ds' env g
-   is false of the model as it is of the code: -/
-
-/-- with two names missing under `strict_undefined`, the `NameError` names whichever declaration comes first -/
-theorem declaration_order_exception_counterexample :
+/-- Documentation of the behaviour before 8e8e5a7 (`emitOrder false` = the set's iteration order is emitted as it
+is): with two names missing under `strict_undefined`, the `NameError` names whichever declaration came first – this
+is why `declaration_order_irrelevant` alone was not enough and the generator now sorts. -/
+theorem declaration_order_exception_unsorted_counterexample :
     let s : Src := ⟨[], [], [], false⟩
-    let ds := [Decl.ctxStrict "x".toList, Decl.ctxStrict "y".toList]
-    let ds' := [Decl.ctxStrict "y".toList, Decl.ctxStrict "x".toList]
-    ds.Perm ds' ∧ (ds.map Decl.target).Nodup ∧
-    execDecls s ds [] false = .error (.nameError "x".toList) ∧
-    execDecls s ds' [] false = .error (.nameError "y".toList) := by
-  refine ⟨List.Perm.swap _ _ _, by decide, by decide, by decide⟩
+    let c : GenCfg := ⟨true, true, false⟩
+    let i : Idents := ⟨["x".toList, "y".toList], [], [], [], [], []⟩
+    let iter := ["x".toList, "y".toList]
+    let iter' := ["y".toList, "x".toList]
+    iter.Perm iter' ∧
+    execDecls s (declBlock c i (emitOrder false iter)) [] false = .error (.nameError "x".toList) ∧
+    execDecls s (declBlock c i (emitOrder false iter')) [] false = .error (.nameError "y".toList) := by
+  refine ⟨List.Perm.swap _ _ _, by decide, by decide⟩
+
+/-- **The emitted declaration block is a function of the set** (since 8e8e5a7 the generator walks `sorted(to_write)`):
+whatever order PYTHONHASHSEED makes Python iterate the set in, the same block is emitted – so the same outcome,
+including *which* `NameError` a strict template raises – and the block declares exactly the names of the set. -/
+theorem declaration_order_deterministic (c : GenCfg) (i : Idents) (iter iter' : List Name) (hp : iter.Perm iter') :
+    emittedBlock c i iter = emittedBlock c i iter' ∧
+    (∀ s env g, execDecls s (emittedBlock c i iter) env g = execDecls s (emittedBlock c i iter') env g) ∧
+    ((emittedBlock c i iter).map Decl.target).Perm iter := by
+  have hs : Generated.Paths8.declsSorted = true := rfl
+  have heq : emittedBlock c i iter = emittedBlock c i iter' := by
+    simp only [emittedBlock, emitOrder, hs, if_true, sortStrs_perm hp]
+  refine ⟨heq, fun s env g => by rw [heq], ?_⟩
+  simp only [emittedBlock, emitOrder, hs, if_true, declBlock_targets]
+  exact perm_sortStrs iter
+
+example : emittedBlock ⟨true, true, false⟩ ⟨["y".toList, "x".toList], [], [], [], [], []⟩ ["y".toList, "x".toList] =
+    [.ctxStrict "x".toList, .ctxStrict "y".toList] := by decide
 
 /-! ### the `__M_locals` snapshot handed to top-level defs -/
 
@@ -209,14 +213,36 @@ theorem locals_snapshot_lookup_irrelevant (data snap snap' : List (Name × Val))
 example : get (ctxLocals [("a".toList, Val.data "0".toList)] [("b".toList, .data "1".toList), ("a".toList, .data "2".toList)])
     "a".toList = some (.data "2".toList) := by decide
 
-/- OPEN (F-C08-1): "the context a top-level def receives is the same whatever the iteration order"
-     ∀ data snap snap', snap.Perm snap' → (keys snap).Nodup → ctxLocals data snap = ctxLocals data snap'
-   is false: `Context.keys()` enumerates the new names in iteration order. -/
-theorem locals_snapshot_keys_counterexample :
-    let snap : List (Name × Val) := [("a".toList, .data "1".toList), ("b".toList, .data "2".toList)]
-    let snap' : List (Name × Val) := [("b".toList, .data "2".toList), ("a".toList, .data "1".toList)]
-    snap.Perm snap' ∧ (keys snap).Nodup ∧ keys (ctxLocals [] snap) ≠ keys (ctxLocals [] snap') := by
-  refine ⟨List.Perm.swap _ _ _, by decide, by decide⟩
+/-- Documentation of the behaviour before 8e8e5a7: with the snapshot built in iteration order, `Context.keys()`
+inside a top-level def enumerated the new names in that order. -/
+theorem locals_snapshot_keys_unsorted_counterexample :
+    let v : Name → Val := fun _ => .data "1".toList
+    let iter := ["a".toList, "b".toList]
+    let iter' := ["b".toList, "a".toList]
+    iter.Perm iter' ∧
+    keys (ctxLocals [] ((emitOrder false iter).map fun n => (n, v n))) ≠
+    keys (ctxLocals [] ((emitOrder false iter').map fun n => (n, v n))) := by
+  refine ⟨List.Perm.swap _ _ _, by decide⟩
+
+/-- **The context a top-level def receives is a function of the set `argument_declared`** (since 8e8e5a7 the
+snapshot is `__M_dict_builtin` over `sorted(argument_declared)`): the same dictionary, key order included – so
+`Context.keys()` does not depend on PYTHONHASHSEED. -/
+theorem locals_snapshot_deterministic (data : List (Name × Val)) (val : Name → Val) (iter iter' : List Name)
+    (hp : iter.Perm iter') :
+    ctxLocals data (localsSnapshot iter val) = ctxLocals data (localsSnapshot iter' val) ∧
+    keys (ctxLocals data (localsSnapshot iter val)) = keys (ctxLocals data (localsSnapshot iter' val)) := by
+  have hs : Generated.Paths8.localsSnapshotSorted = true := rfl
+  have : localsSnapshot iter val = localsSnapshot iter' val := by
+    simp only [localsSnapshot, emitOrder, hs, if_true, sortStrs_perm hp]
+  rw [this]; exact ⟨rfl, rfl⟩
+
+example : keys (ctxLocals [("z".toList, Val.undefined)] (localsSnapshot ["b".toList, "a".toList] fun _ => .undefined)) =
+    ["z".toList, "a".toList, "b".toList] := by decide
+
+/-- the two other places that print a set are sorted as well (regenerated flags): the name list of a `<% %>` block's
+`__M_locals.update` and the names in both `NameConflictError` messages -/
+theorem remaining_set_prints_sorted :
+    Generated.Paths8.codeBlockNamesSorted = true ∧ Generated.Paths8.conflictMessagesSorted = true := ⟨rfl, rfl⟩
 
 /-! ## text path vs module-file path -/
 
